@@ -1,1 +1,343 @@
-/-! Property theorems for C20 — placeholder until the property's model is built. -/
+import FcpptModel.Spec.C20
+import FcpptProofs.C20.Lemmas
+/-!
+# C20 — property theorems
+
+Throughout, `G` is an arbitrary engine, `D` an arbitrary standard distribution with a two-component
+`param_type`, `ty` an arbitrary result-type shape (plain / nested strong typedefs / enum, any nesting), and
+`β` an arbitrary base type.  Nothing about the numbers the standard library produces is assumed in the
+transparency theorems; the range theorems assume exactly the standard's contract (`StdDist.UniformInt`).
+Only theorems and examples live here; lemmas are in `FcpptProofs/C20/Lemmas.lean`.
+-/
+namespace Fcppt.C20
+variable {β δ γ : Type}
+
+/-! ## type_iso is an isomorphism -/
+
+/-- `base_value(decorated_value<R>(x)) = x` for every result-type shape -/
+theorem undecorate_decorate (t : Ty) (x : β) : undecorate (decorate t x) = x :=
+  undecorate_decorate' t x
+
+/-- `decorated_value<R>(base_value(v)) = v` for every value `v` of type `R` -/
+theorem decorate_undecorate (v : DVal β) (t : Ty) (h : v.HasTy t) : decorate t (undecorate v) = v :=
+  decorate_undecorate' v t h
+
+/-- `decorated_value<R>` produces a value of type `R` -/
+theorem decorate_hasTy (t : Ty) (x : β) : (decorate t x).HasTy t := decorate_hasTy' t x
+
+/-! ## the generator wrapper is transparent -/
+
+/-- `generator::basic_pseudo<G>` is, for a distribution, the same generator as `G`
+(same `operator()`, `min()`, `max()`), whatever the engine is. -/
+theorem basicPseudo_transparent (G : Gen γ) : basicPseudo G = G := rfl
+
+/-- hence any distribution draws the same value and leaves the same states behind -/
+theorem draw_through_basicPseudo (D : StdDist β δ) (G : Gen γ) (d : δ) (g : γ) :
+    D.draw (basicPseudo G) d g = D.draw G d g := rfl
+
+/-- seeding: the wrapped engine is constructed from exactly the value inside the `seed` strong typedef -/
+theorem basicPseudoSeed_eq {σ : Type} (mkEngine : σ → γ) (s : σ) :
+    basicPseudoSeed mkEngine (.strong (.base s)) = mkEngine s := rfl
+
+/-! ## parameters -/
+
+/-- **The interval is passed exactly**: a distribution constructed from bounds `a`, `b` given in any result
+type hands `(a, b)` to the wrapped distribution's constructor — for every constructor of `basic`. -/
+theorem interval_passed_exactly (D : StdDist β δ) (ty : Ty) (a b : β) :
+    (Basic.ctor D ⟨decorate ty a, decorate ty b⟩).dist = D.ofParam (a, b) ∧
+    (Basic.ctor2 D (decorate ty a) (decorate ty b)).dist = D.ofParam (a, b) ∧
+    (Variate.ctorParam D ⟨decorate ty a, decorate ty b⟩).distribution.dist = D.ofParam (a, b) ∧
+    ∀ d : Basic δ, (Basic.setParam D d ⟨decorate ty a, decorate ty b⟩).dist = D.setParam d.dist (a, b) := by
+  simp [Basic.ctor, Basic.ctor2, Variate.ctorParam, Basic.setParam, Param2.convertFrom, undecorate_decorate']
+
+/-- the same for arbitrary (not necessarily freshly decorated) bounds: what arrives is their base values -/
+theorem interval_passed_exactly' (D : StdDist β δ) (p : Param2 β) :
+    (Basic.ctor D p).dist = D.ofParam (undecorate p.fst, undecorate p.snd) := rfl
+
+/-- what the wrapped distribution then reports as its parameters, under [rand.req.dist] -/
+theorem wrapped_params (D : StdDist β δ) (hL : D.Lawful) (ty : Ty) (a b : β) :
+    D.param (Basic.ctor D ⟨decorate ty a, decorate ty b⟩).dist = (a, b) ∧
+    ∀ d : Basic δ, D.param (Basic.setParam D d ⟨decorate ty a, decorate ty b⟩).dist = (a, b) := by
+  refine ⟨?_, fun d => ?_⟩
+  · rw [(interval_passed_exactly D ty a b).1, hL.param_ofParam]
+  · rw [(interval_passed_exactly D ty a b).2.2.2 d, hL.param_setParam]
+
+/-- **Parameter round trip** `convert_to ∘ convert_from = id` on well-typed parameters and
+`convert_from ∘ convert_to = id`.  (`convert_to` cannot be instantiated on the pinned tree — see notes — so
+this half of the statement is about the model of the text only; `convert_from` is tied.) -/
+theorem params_roundtrip (ty : Ty) (p : Param2 β) (h1 : p.fst.HasTy ty) (h2 : p.snd.HasTy ty) (q : β × β) :
+    Param2.convertTo ty p.convertFrom = p ∧ (Param2.convertTo ty q).convertFrom = q := by
+  constructor
+  · cases p with
+    | mk f s => simp [Param2.convertTo, Param2.convertFrom, decorate_undecorate' f ty h1, decorate_undecorate' s ty h2]
+  · simp [Param2.convertTo, Param2.convertFrom, undecorate_decorate']
+
+/-- reading the parameters of a freshly constructed distribution back gives the parameters it was built from -/
+theorem readParams_ctor (D : StdDist β δ) (hL : D.Lawful) (ty : Ty) (p : Param2 β)
+    (h1 : p.fst.HasTy ty) (h2 : p.snd.HasTy ty) : Basic.readParams D ty (Basic.ctor D p) = p := by
+  unfold Basic.readParams Basic.ctor
+  rw [hL.param_ofParam]
+  exact (params_roundtrip ty p h1 h2 (p.convertFrom)).1
+
+/-- `min()` / `max()` are the wrapped distribution's, decorated -/
+theorem min_max_decorated (D : StdDist β δ) (ty : Ty) (b : Basic δ) :
+    Basic.min D ty b = decorate ty (D.min b.dist) ∧ Basic.max D ty b = decorate ty (D.max b.dist) := ⟨rfl, rfl⟩
+
+/-! ## transparency -/
+
+/-- **Transparency of a variate.**  For every engine `G`, distribution `D`, result type `ty`, number of
+draws `n`, variate state and generator state: the variate over `basic_pseudo<G>` yields exactly the values
+the bare distribution yields from the bare engine, re-wrapped by `decorate ty`, and leaves the wrapped
+distribution and the (shared) generator in exactly the states the bare run leaves them in. -/
+theorem variate_transparent (D : StdDist β δ) (ty : Ty) (G : Gen γ) (n : Nat) (v : Variate δ) (g : γ) :
+    Variate.draws D ty (basicPseudo G) n v g =
+      (((stdDraws D G n v.distribution.dist g).1.map (decorate ty)),
+        ⟨⟨(stdDraws D G n v.distribution.dist g).2.1⟩⟩,
+        (stdDraws D G n v.distribution.dist g).2.2) :=
+  variate_draws_eq D ty G n v g
+
+/-- the same, starting from the requested parameters: `variate(gen, basic(min(a), max(b)))` draws
+`map decorate (draws of D(a, b))` -/
+theorem transparent (D : StdDist β δ) (ty : Ty) (G : Gen γ) (a b : β) (n : Nat) (g : γ) :
+    (Variate.draws D ty (basicPseudo G) n (Variate.ctor (Basic.ctor D ⟨decorate ty a, decorate ty b⟩)) g).1 =
+      (stdDraws D G n (D.ofParam (a, b)) g).1.map (decorate ty) ∧
+    (Variate.draws D ty (basicPseudo G) n (Variate.ctorParam D ⟨decorate ty a, decorate ty b⟩) g).1 =
+      (stdDraws D G n (D.ofParam (a, b)) g).1.map (decorate ty) := by
+  have h := (interval_passed_exactly D ty a b).1
+  constructor
+  · rw [variate_transparent]; simp only [Variate.ctor]; rw [h]
+  · rw [variate_transparent]; simp only [Variate.ctorParam]; rw [h]
+
+/-- **Transparency over histories.**  Any interleaving of draws, `reset()` and `param(p)` on a
+`distribution::basic` gives the decorated values of the same history on the wrapped distribution (with the
+parameters' base values), and the same final distribution and generator states. -/
+theorem history_transparent (D : StdDist β δ) (ty : Ty) (G : Gen γ) (ops : List (Op β)) (b : Basic δ) (g : γ) :
+    runF D ty (basicPseudo G) ops b g =
+      (((runS D G ops b.dist g).1.map (decorate ty)), ⟨(runS D G ops b.dist g).2.1⟩, (runS D G ops b.dist g).2.2) :=
+  runF_eq D ty G ops b g
+
+/-- nothing is lost or added: the variate draws exactly `n` values -/
+theorem draws_length (D : StdDist β δ) (ty : Ty) (G : Gen γ) (n : Nat) (v : Variate δ) (g : γ) :
+    (Variate.draws D ty G n v g).1.length = n := by
+  rw [variate_draws_eq]; simp [stdDraws_length]
+
+/-- the undecorated fcppt sequence *is* the standard sequence -/
+theorem undecorated_draws (D : StdDist β δ) (ty : Ty) (G : Gen γ) (n : Nat) (v : Variate δ) (g : γ) :
+    (Variate.draws D ty (basicPseudo G) n v g).1.map undecorate = (stdDraws D G n v.distribution.dist g).1 := by
+  rw [variate_transparent]
+  simp [List.map_map, Function.comp_def, undecorate_decorate']
+
+/-- every drawn value has the requested result type -/
+theorem draws_hasTy (D : StdDist β δ) (ty : Ty) (G : Gen γ) (n : Nat) (v : Variate δ) (g : γ) :
+    ∀ x ∈ (Variate.draws D ty G n v g).1, x.HasTy ty := by
+  intro x hx
+  rw [variate_draws_eq] at hx
+  simp only [List.mem_map] at hx
+  obtain ⟨y, _, rfl⟩ := hx
+  exact decorate_hasTy' ty y
+
+/-! ## bounds (given the standard's contract for `uniform_int_distribution`) -/
+
+/-- **In range**: a uniform integer distribution of any result type, built for `[lo, hi]` with `lo ≤ hi`,
+only yields values inside `[lo, hi]`, for every number of draws, engine and generator state. -/
+theorem in_range {D : StdDist Int δ} (hU : D.UniformInt) (ty : Ty) (G : Gen γ) (p : Param2 Int)
+    (hle : undecorate p.fst ≤ undecorate p.snd) (n : Nat) (g : γ) :
+    InInterval p.fst p.snd (Variate.draws D ty (basicPseudo G) n (Variate.ctor (Basic.ctor D p)) g).1 := by
+  intro v hv
+  rw [variate_transparent] at hv
+  simp only [List.mem_map] at hv
+  obtain ⟨x, hx, rfl⟩ := hv
+  have hp : D.param (Variate.ctor (Basic.ctor D p)).distribution.dist = (undecorate p.fst, undecorate p.snd) := by
+    simp [Variate.ctor, Basic.ctor, Param2.convertFrom, hU.toLawful.param_ofParam]
+  have := stdDraws_mem hU G n _ g (by rw [hp]; exact hle) x hx
+  rw [hp] at this
+  simpa [undecorate_decorate'] using this
+
+/-- the same for a distribution in an arbitrary state (after any history) that currently holds `(a, b)` -/
+theorem in_range_any_state {D : StdDist Int δ} (hU : D.UniformInt) (ty : Ty) (G : Gen γ) (v : Variate δ)
+    (hle : (D.param v.distribution.dist).1 ≤ (D.param v.distribution.dist).2) (n : Nat) (g : γ) :
+    ∀ x ∈ (Variate.draws D ty (basicPseudo G) n v g).1,
+      (D.param v.distribution.dist).1 ≤ undecorate x ∧ undecorate x ≤ (D.param v.distribution.dist).2 := by
+  intro x hx
+  rw [variate_transparent] at hx
+  simp only [List.mem_map] at hx
+  obtain ⟨y, hy, rfl⟩ := hx
+  simpa [undecorate_decorate'] using stdDraws_mem hU G n _ g hle y hy
+
+/-- **In range over histories**: for any interleaving of draws, `reset()` and `param(p)` (each `p` with
+`min ≤ max`), every drawn value lies in the interval that had been requested at the moment of the draw. -/
+theorem history_in_range {D : StdDist Int δ} (hU : D.UniformInt) (ty : Ty) (G : Gen γ) :
+    ∀ (ops : List (Op Int)) (b : Basic δ) (g : γ) (q : Int × Int), D.param b.dist = q → q.1 ≤ q.2 → OpsValid ops →
+      AllWithin (runF D ty (basicPseudo G) ops b g).1 (boundsInForce ops q) := by
+  intro ops
+  induction ops with
+  | nil => intro b g q _ _ _; trivial
+  | cons o ops ih =>
+    intro b g q hq hle hv
+    cases o with
+    | draw =>
+      simp only [runF, boundsInForce]
+      refine ⟨?_, ih _ _ q ?_ hle hv⟩
+      · have := hU.draw_mem (basicPseudo G) b.dist g (by rw [hq]; exact hle)
+        rw [hq] at this
+        simpa [Basic.draw, Basic.makeResult, undecorate_decorate'] using this
+      · simp only [Basic.draw]
+        rw [hU.toLawful.param_draw, hq]
+    | reset =>
+      simp only [runF, boundsInForce]
+      exact ih _ g q (by simp only [Basic.reset]; rw [hU.toLawful.param_reset, hq]) hle hv
+    | setParam p =>
+      simp only [runF, boundsInForce]
+      exact ih _ g _ (by simp only [Basic.setParam, Param2.convertFrom]; rw [hU.toLawful.param_setParam]) hv.1 hv.2
+
+/-- **Enum distributions yield enumerators**: `make_uniform_enum<E>()` for an enum whose largest
+enumerator has value `maxValue` only yields `E(x)` with `0 ≤ x ≤ maxValue`. -/
+theorem enum_in_range {D : StdDist Int δ} (hU : D.UniformInt) (G : Gen γ) (maxValue : Nat) (n : Nat) (g : γ) :
+    ∀ v ∈ (Variate.draws D .enum (basicPseudo G) n (Variate.ctor (Basic.ctor D (makeUniformEnum maxValue))) g).1,
+      ∃ x : Int, v = .enum x ∧ 0 ≤ x ∧ x ≤ maxValue := by
+  intro v hv
+  have hr := in_range hU .enum G (makeUniformEnum maxValue) (by simp [makeUniformEnum, undecorate]) n g v hv
+  rw [variate_transparent] at hv
+  simp only [List.mem_map] at hv
+  obtain ⟨x, _, rfl⟩ := hv
+  refine ⟨x, rfl, ?_⟩
+  simpa [makeUniformEnum, undecorate, decorate] using hr
+
+/-- the interval `make_uniform_enum` requests is `[0, maxValue]` — all enumerators, nothing else -/
+theorem makeUniformEnum_interval (maxValue : Nat) :
+    (makeUniformEnum maxValue).convertFrom = (0, (maxValue : Int)) := rfl
+
+/-! ## index / container factories -/
+
+/-- **Empty gives none**: the factories return nothing exactly for an empty container, and otherwise the
+index interval is `[0, size - 1]`. -/
+theorem empty_gives_none {α : Type} (D : StdDist Int δ) (c : List α) :
+    (makeUniformIndices c = none ↔ c = []) ∧
+    ((makeUniformContainer D c).isNone ↔ c = []) ∧
+    (c ≠ [] → (makeUniformIndices c).map Param2.convertFrom = some (0, ((c.length - 1 : Nat) : Int))) := by
+  rw [makeUniformContainer, makeUniformIndices_eq]
+  by_cases h : c = []
+  · simp [h]
+  · simp [h, Param2.convertFrom, undecorate]
+
+/-- no invalid distribution is ever constructed: the interval handed to the wrapped distribution satisfies
+its precondition `a ≤ b` -/
+theorem indices_precondition {α : Type} (c : List α) (p : Param2 Int) (h : makeUniformIndices c = some p) :
+    p.convertFrom.1 ≤ p.convertFrom.2 := by
+  rw [makeUniformIndices_eq] at h
+  by_cases hc : c = []
+  · simp [hc] at h
+  · simp [hc] at h
+    subst h
+    simp [Param2.convertFrom, undecorate]
+
+/-- **Index valid and element membership**: a `uniform_container` made by the factory never indexes out of
+bounds (the model's `oob` fault is unreachable) and every result is the container's element at a valid
+index — for every non-empty container, engine, number of draws. -/
+theorem container_elem_mem {α : Type} {D : StdDist Int δ} (hU : D.UniformInt) (G : Gen γ) (c : List α) (hc : c ≠ [])
+    (n : Nat) (g : γ) :
+    ∃ u r, makeUniformContainer D c = some u ∧
+      UniformContainer.draws D (basicPseudo G) n u g = .ok r ∧ r.1.length = n ∧
+      ∀ ei ∈ r.1, ei.2 < c.length ∧ c[ei.2]? = some ei.1 ∧ ei.1 ∈ c := by
+  have hsome : makeUniformContainer D c =
+      some (UniformContainer.ctor D c ⟨.base 0, .base (Int.ofNat (c.length - 1))⟩) := by
+    simp [makeUniformContainer, makeUniformIndices_eq, hc]
+  have hinv : UniformContainer.Inv D c (UniformContainer.ctor D c ⟨.base 0, .base (Int.ofNat (c.length - 1))⟩) := by
+    refine ⟨rfl, ?_⟩
+    simp [UniformContainer.ctor, Basic.ctor, Param2.convertFrom, undecorate, hU.toLawful.param_ofParam]
+  obtain ⟨r, hr, hl, hall⟩ := container_draws_ok hU G c hc n _ hinv g
+  refine ⟨_, r, hsome, hr, hl, fun ei hei => ?_⟩
+  obtain ⟨h1, h2⟩ := hall ei hei
+  exact ⟨h1, h2, List.mem_of_getElem? h2⟩
+
+/-- `index_valid` on its own: the index drawn for a non-empty container is `< size` -/
+theorem index_valid {α : Type} {D : StdDist Int δ} (hU : D.UniformInt) (G : Gen γ) (c : List α) (hc : c ≠ [])
+    (n : Nat) (g : γ) (u : UniformContainer α δ) (hu : makeUniformContainer D c = some u)
+    (r : List (α × Nat) × UniformContainer α δ × γ) (hr : UniformContainer.draws D (basicPseudo G) n u g = .ok r) :
+    ∀ ei ∈ r.1, ei.2 < c.length := by
+  obtain ⟨u', r', hu', hr', _, hall⟩ := container_elem_mem hU G c hc n g
+  rw [hu] at hu'
+  cases hu'
+  rw [hr] at hr'
+  cases hr'
+  exact fun ei hei => (hall ei hei).1
+
+/-! ## both ends -/
+
+/-- "Reaches both ends" is inherited from the standard distribution in both directions: the fcppt sequence
+contains both requested bounds iff the standard sequence contains `a` and `b`. -/
+theorem ends_transfer (D : StdDist β δ) (ty : Ty) (G : Gen γ) (a b : β) (n : Nat) (g : γ) :
+    ReachesBothEnds (decorate ty a) (decorate ty b)
+        (Variate.draws D ty (basicPseudo G) n (Variate.ctor (Basic.ctor D ⟨decorate ty a, decorate ty b⟩)) g).1 ↔
+      ReachesBothEnds a b (stdDraws D G n (D.ofParam (a, b)) g).1 := by
+  rw [(transparent D ty G a b n g).1]
+  unfold ReachesBothEnds
+  simp only [List.mem_map]
+  constructor
+  · rintro ⟨⟨x, hx, hxa⟩, ⟨y, hy, hyb⟩⟩
+    exact ⟨decorate_injective ty hxa ▸ hx, decorate_injective ty hyb ▸ hy⟩
+  · rintro ⟨ha, hb⟩
+    exact ⟨⟨a, ha, rfl⟩, ⟨b, hb, rfl⟩⟩
+
+/-! ## the contracts are satisfiable; concrete runs -/
+
+/-- the exactly specified distribution of the harness (`mod_dist`) fulfils the standard's contract, so the
+range theorems are not vacuous -/
+theorem modDist_contract : StdDist.UniformInt modDist where
+  param_ofParam := fun _ => rfl
+  param_setParam := fun _ _ => rfl
+  param_reset := fun _ => rfl
+  param_draw := fun _ _ _ => rfl
+  min_eq := fun _ => rfl
+  max_eq := fun _ => rfl
+  draw_mem := by
+    intro γ G d g h
+    simp only [modDist] at h ⊢
+    have hpos : 0 < d.2 - d.1 + 1 := by omega
+    have h1 := Int.emod_nonneg (Int.ofNat (G.next g).1) (Int.ne_of_gt hpos)
+    have h2 := Int.emod_lt_of_pos (Int.ofNat (G.next g).1) hpos
+    omega
+
+/-- a strong typedef of a strong typedef of `int` over `[-3, 5]` from the counter engine seeded with 10 -/
+example :
+    (Variate.draws modDist (.strong (.strong .base)) (basicPseudo ctrEngine) 4
+      (Variate.ctor (Basic.ctor modDist ⟨decorate (.strong (.strong .base)) (-3), decorate (.strong (.strong .base)) 5⟩)) 10).1
+      = [.strong (.strong (.base (-2))), .strong (.strong (.base (-1))), .strong (.strong (.base 0)), .strong (.strong (.base 1))] := by
+  decide
+
+/-- a history on a strong typedef: draw from `[0,3]`, `param([10,11])`, draw, `reset()`, draw -/
+example :
+    (runF modDist (.strong .base) (basicPseudo ctrEngine)
+      [.draw, .setParam ⟨.strong (.base 10), .strong (.base 11)⟩, .draw, .reset, .draw]
+      (Basic.ctor modDist ⟨.strong (.base 0), .strong (.base 3)⟩) 6).1
+      = [.strong (.base 2), .strong (.base 11), .strong (.base 10)] ∧
+    boundsInForce [.draw, .setParam ⟨.strong (.base 10), .strong (.base 11)⟩, .draw, .reset, .draw] (0, 3)
+      = [(0, 3), (10, 11), (10, 11)] := by
+  decide
+
+/-- containers: `[10, 20, 30]` is drawn by index; the empty container gives nothing -/
+example : (makeUniformContainer modDist [10, 20, 30]).isSome = true ∧ (makeUniformContainer modDist ([] : List Int)).isNone = true := by
+  decide
+
+example :
+    (match makeUniformContainer modDist [10, 20, 30] with
+     | some u => (UniformContainer.draws modDist (basicPseudo ctrEngine) 4 u 5).toOption.map (·.1)
+     | none => none) = some [(30, 2), (10, 0), (20, 1), (30, 2)] := by
+  decide
+
+/-- a wrapped distribution that breaks the standard's contract makes the container wrapper fault: the
+hypothesis `hU` of `container_elem_mem` is needed -/
+example :
+    let bad : StdDist Int (Int × Int) := { modDist with draw := fun {_} _ d g => (d.2 + 1, d, g) }
+    (match makeUniformContainer bad [10, 20, 30] with
+     | some u => (UniformContainer.draw bad ctrEngine u 0).toOption.isNone
+     | none => false) = true := by
+  decide
+
+/-- an off-by-one variant of `make_uniform_indices` (`max(size())`) would violate `index_valid`: with the
+counter engine the third draw indexes past the end -/
+example :
+    (UniformContainer.draws modDist ctrEngine 4 (UniformContainer.ctor modDist [10, 20, 30] ⟨.base 0, .base 3⟩) 0).toOption.isNone = true := by
+  decide
+
+end Fcppt.C20
